@@ -27,6 +27,11 @@ static int32_t c_it(void *st, uint64_t *out) { CIt *c = st; if (c->next < c->end
 typedef struct { int refs, clones, drops; } CArcObj;
 static const void *carc_clone(const void *p) { CArcObj *o = (CArcObj *)p; o->refs++; o->clones++; return p; }
 static void carc_drop(const void *p) { CArcObj *o = (CArcObj *)p; o->refs--; o->drops++; }
+/* ... and one whose clone function hands out a new handle per reference; the release function retires exactly the handle it is given */
+typedef struct { int live, retired_twice, cloned_after_retire; } CHandle;
+static CHandle handles[64]; static int n_handles;
+static const void *chandle_clone(const void *p) { CHandle *h = (CHandle *)p; if (!h->live) h->cloned_after_retire++; if (n_handles >= 64) return p; CHandle *n = &handles[n_handles++]; n->live = 1; n->retired_twice = n->cloned_after_retire = 0; return n; }
+static void chandle_drop(const void *p) { CHandle *h = (CHandle *)p; if (!h->live) h->retired_twice++; h->live = 0; }
 
 static void t_box(void) {
     n_box++;
@@ -218,6 +223,16 @@ static void t_arc_foreign(void) {
     CHECK(held == (uint32_t)want_clones, "arc-foreign", "Rust held %u handles, expected %d", held, want_clones);
     CHECK(o.clones == want_clones, "arc-foreign-clone-fn", "Rust made %d clones of a C-made arc but called its clone function %d times", want_clones, o.clones);
     CHECK(o.drops == want_clones + 1 && o.refs == 0, "arc-foreign-drop-fn", "C-made arc: release function called %d times for %d handles, references left %d", o.drops, want_clones + 1, o.refs);
+    /* handle-per-reference arc */
+    n_handles = 1; handles[0].live = 1; handles[0].retired_twice = handles[0].cloned_after_retire = 0;
+    CArc_void b = { &handles[0], chandle_clone, chandle_drop };
+    k = (uint32_t)below(6);
+    held = rs_arc_foreign_roundtrip(b, k);
+    want_clones = (int)k + (int)((k + 1) / 2);
+    CHECK(held == (uint32_t)want_clones, "arc-foreign", "Rust held %u handles, expected %d", held, want_clones);
+    CHECK(n_handles == want_clones + 1, "arc-foreign-clone-fn", "Rust made %d clones of a C-made arc, its clone function issued %d handles", want_clones, n_handles - 1);
+    for (int i = 0; i < n_handles; i++)
+        CHECK(!handles[i].live && !handles[i].retired_twice && !handles[i].cloned_after_retire, "arc-foreign-handle", "handle %d of %d issued by the C-made arc's clone function: still live %d, retired twice %d, cloned after retirement %d", i, n_handles, handles[i].live, handles[i].retired_twice, handles[i].cloned_after_retire);
 }
 
 static void t_opt_res(void) {
